@@ -455,8 +455,11 @@ class GraphBuilder:
         if not nodes:
             logger.warning("No nodes in graph builder, building an empty model")
 
+        # seed nodes that were added by an earlier build are kept (with their value)
+        seeds = [node.kwinputs.get("seed") for node in nodes if node.needs_seed]
+
         for node in nodes:
-            if node.name.startswith("_model"):
+            if node.name.startswith("_model") and not any(node is s for s in seeds):
                 raise RuntimeError(f"{repr(node)} has reserved name '_model*'")
 
         gb = self.copy()
